@@ -5,6 +5,7 @@ import (
 	"os"
 	"path/filepath"
 	"strings"
+	"sync"
 )
 
 // Mutant is a small source rewrite applied IN MEMORY (packages.Config.Overlay)
@@ -124,6 +125,91 @@ func selfTest(prop string) map[string]interface{} {
 			survived = append(survived, m.Name+" (reported: "+strings.Join(newKeys, " ; ")+")")
 		}
 	}
+	// the corpora of seeded changes and refactorings, replayed in memory (four at a time)
+	type job struct {
+		cp   corpusPatch
+		skip string
+		keys []string
+	}
+	var jobs []*job
+	for _, cp := range corpusPatches() {
+		if cp.Kind == "seeded" {
+			mine := false
+			for _, e := range cp.Expect {
+				if e == prop {
+					mine = true
+				}
+			}
+			if !mine {
+				continue
+			}
+		}
+		jobs = append(jobs, &job{cp: cp})
+	}
+	sem := make(chan struct{}, 4)
+	var wg sync.WaitGroup
+	for _, j := range jobs {
+		wg.Add(1)
+		sem <- struct{}{}
+		go func(j *job) {
+			defer wg.Done()
+			defer func() { <-sem }()
+			b, err := os.ReadFile(j.cp.Path)
+			if err != nil {
+				j.skip = err.Error()
+				return
+			}
+			ov, err := applyUnifiedDiff(repoDir(), string(b))
+			if err != nil {
+				j.skip = err.Error()
+				return
+			}
+			w, err := Load(LoadOpts{Overlay: ov})
+			if err != nil {
+				j.skip = "does not compile: " + err.Error()
+				return
+			}
+			r, err := runProp(w, prop, "quick")
+			if err != nil {
+				j.keys = append(j.keys, "checker-panic: "+err.Error())
+				return
+			}
+			for _, f := range r.classify(known).Violations {
+				if !base[f.Key()] {
+					j.keys = append(j.keys, f.Key())
+				}
+			}
+		}(j)
+	}
+	wg.Wait()
+	seedApplied, seedKilled, refApplied, refOK := 0, 0, 0, 0
+	var corpusSkipped []string
+	for _, j := range jobs {
+		switch {
+		case j.skip != "":
+			corpusSkipped = append(corpusSkipped, j.cp.Kind+"/"+j.cp.Name+": "+j.skip)
+		case j.cp.Kind == "seeded":
+			seedApplied++
+			if len(j.keys) > 0 {
+				seedKilled++
+				details = append(details, "seeded/"+j.cp.Name+" -> "+j.keys[0])
+			} else {
+				survived = append(survived, "seeded/"+j.cp.Name)
+			}
+		default:
+			refApplied++
+			if len(j.keys) == 0 {
+				refOK++
+			} else {
+				falseAlarms = append(falseAlarms, "equiv/"+j.cp.Name+" -> "+strings.Join(j.keys, " ; "))
+			}
+		}
+	}
+	applied += seedApplied
+	killed += seedKilled
+	equivOK += refOK
+	skipped += len(corpusSkipped)
+	skippedNames = append(skippedNames, corpusSkipped...)
 	for _, s := range survived {
 		fmt.Fprintf(os.Stderr, "SELFTEST: mutant survived: %s\n", s)
 	}
@@ -139,6 +225,10 @@ func selfTest(prop string) map[string]interface{} {
 		"equivalent_rewrites_ok":  equivOK,
 		"equivalent_false_alarms": falseAlarms,
 		"killed_detail":           details,
+		"corpus_seeded_applied":   seedApplied,
+		"corpus_seeded_killed":    seedKilled,
+		"corpus_refactorings":     refApplied,
+		"corpus_refactorings_ok":  refOK,
 		"note":                    "in-memory overlays of the current /repo sources; measures checker sensitivity/specificity only",
 	}
 }
